@@ -242,8 +242,13 @@ def main(argv):
     print("canaries: %d run, %d detected, %d missed, %d n/a" % (
         len(results), sum(1 for r in results if r[1] == "detected"), len(missed),
         sum(1 for r in results if r[1].startswith("n/a"))))
-    json.dump([{"name": n, "status": s, "properties": p} for n, s, p in results],
-              open(os.path.join(VERIF, "selftest", "canary_results.json"), "w"), indent=1)
+    out = [{"name": n, "status": s, "properties": p} for n, s, p in results]
+    rp = os.path.join(VERIF, "selftest", "canary_results.json")
+    if want and os.path.exists(rp):
+        # a filtered run refreshes only the canaries it ran
+        ran = {r["name"] for r in out}
+        out = [r for r in json.load(open(rp)) if r["name"] not in ran] + out
+    json.dump(out, open(rp, "w"), indent=1)
     return 2 if missed else 0
 
 
